@@ -910,13 +910,15 @@ impl SubRule {
                 Some(mut ins_pos) => {
                     let mut pos = ins_pos;
                     let mut state_index = 0;
+                    let search_start = start_pos;
                     start_pos = ins_pos;
                     while state_index < aft_states.len() {
                         if !self.context_match(aft_states, &mut state_index, word, &mut pos, true, false)? {
                             match bef_states.last().unwrap().kind {
                                 ParseElement::WordBound => return Ok(None),
                                 ParseElement::SyllBound => start_pos.increment(word),
-                                _ => {}
+                                // the before-context matched without consuming anything (an optional): move on
+                                _ => if start_pos == search_start { start_pos.increment(word) },
                             }
                             continue 'outer;
                         }
